@@ -56,7 +56,8 @@ def build_ffi_harness():
     global _ffi_bin
     if _ffi_bin:
         return _ffi_bin
-    env = dict(os.environ, CARGO_NET_OFFLINE="true", CARGO_TARGET_DIR=TARGET_FFI)
+    env = dict(os.environ, CARGO_NET_OFFLINE="true", CARGO_TARGET_DIR=TARGET_FFI,
+               CARGO_PROFILE_DEV_DEBUG="0", CARGO_PROFILE_TEST_DEBUG="0")   # no debug info: a third of the disk use
     env.pop("RUSTFLAGS", None)
     with Lock("cargo_ffi"):
         p = subprocess.run(["cargo", "rustc", "-p", "dnp3-ffi", "--lib", "--profile", "test", "--offline",
